@@ -13,7 +13,19 @@ REQUIRED = ['getNBest_shape', 'plurality_shape', 'quotaSelector_refusals', 'ha_s
             'electedOf_map_cand', 'electedOf_append', 'electedOf_replicate_tie', 'getNBest_shape_of_keys',
             'lr_shape', 'qd_shape', 'quota_pos', 'lr_rounded_quota_zero_witness',
             'getNBest_struct', 'breakSecondOrder_shape', 'copeland_shape', 'schulze_shape', 'minimax_shape',
-            'positional_shape', 'positional_refusals', 'scorerOK_of_wf', 'approval_shape', 'approval_refusals']
+            'positional_shape', 'positional_refusals', 'scorerOK_of_wf', 'approval_shape', 'approval_refusals',
+            'quotaSelector_shape', 'abs_threshold_shape', 'rel_threshold_shape', 'openlist_shape',
+            # Lemmas/ShapeRankedT2.lean
+            'kemeny_shape', 'kemeny_refusals', 'rankedpairs_shape_partial', 'rankedpairs_shape_le_two', 'rankedpairs_refusals',
+            'rankedpairs_refusals_all', 'rankedpairs_short_witness', 'seatless_shape', 'seatless_smith_nonempty', 'benham_shape',
+            'benham_refusals_partial', 'benham_refusals_witness', 'tideman_shape', 'tideman_refusals_partial', 'tideman_no_votes',
+            'tideman_refusals_witness', 'bucklin_shape_partial', 'bucklin_whole_shape_partial', 'bucklin_refusals',
+            'bucklin_whole_refusals', 'bucklin_answers', 'bucklin_whole_refusals_all', 'bucklin_short_witness',
+            # Lemmas/ShapeSTV.lean
+            'stv_shape', 'stv_gregory_shape', 'stv_refusals', 'stv_refusals_partial', 'stv_fuel_unreachable', 'stv_gregory_no_fuel',
+            'stv_default_refusals', 'stv_default_total', 'stv_droop_refusals', 'stv_hare_refusals', 'stvd_shape', 'stvd_gregory_shape',
+            'stvd_refusals', 'stvd_refusals_partial', 'stvd_droop_refusals', 'stv_refusals_quota_zero_witness',
+            'stv_refusals_no_step_witness', 'stvd_refusals_over_award_witness', 'stv_quota_pos_droop', 'stv_quota_pos_hare']
 PROVED_FAMILIES = ['plurality', 'ha_d_hondt', 'ha_sainte_lague', 'ha_imperiali', 'ha_danish', 'ha_macau',
                    'quota_selector_droop', 'quota_selector_hare',
                    'lr_hare', 'lr_hagenbach_bischoff', 'lr_imperiali', 'lr_droop', 'lr_hare_rounded', 'lr_hagenbach_bischoff_ceil',
@@ -21,11 +33,22 @@ PROVED_FAMILIES = ['plurality', 'ha_d_hondt', 'ha_sainte_lague', 'ha_imperiali',
                    'condorcet_copeland_2o', 'condorcet_copeland_raw', 'condorcet_schulze', 'condorcet_minimax_winvotes',
                    'condorcet_minimax_margins', 'condorcet_minimax_pwo',
                    'positional_borda', 'positional_borda0', 'positional_dowdall', 'positional_geometric', 'positional_modified_borda',
-                   'positional_fixed_top3', 'approval_av', 'approval_sav']
+                   'positional_fixed_top3', 'approval_av', 'approval_sav',
+                   'condorcet_kemeny_young', 'condorcet_winner', 'smith_set', 'schwartz_set',
+                   'stv_gregory_hare', 'stv_gregory_droop', 'stv_dist_gregory_droop',
+                   'rel_threshold_5pc', 'rel_threshold_third', 'abs_threshold_2', 'openlist_jump_5pc', 'openlist_quota_precedence']
 NAMES = Names(prefix='cand')
 POSITIONAL = {'positional_borda': {'s': 'Borda', 'base': 1}, 'positional_borda0': {'s': 'Borda', 'base': 0},
               'positional_dowdall': {'s': 'Dowdall'}, 'positional_geometric': {'s': 'Geometric', 'base': 2},
               'positional_modified_borda': {'s': 'ModifiedBorda'}, 'positional_fixed_top3': {'s': 'FixedTop', 'top': 3}}
+STV = {'stv_gregory_hare': ('hare', 'selector'), 'stv_gregory_droop': ('droop', 'selector'),
+       'stv_dist_gregory_droop': ('droop', 'distributor')}
+THRESHOLDS = {'rel_threshold_5pc': ('rel_threshold', '1/20', True), 'rel_threshold_third': ('rel_threshold', '1/3', False),
+              'abs_threshold_2': ('abs_threshold', '2', True)}
+OPENLIST = {'openlist_jump_5pc': {'jump_fraction': '1/20', 'quota': None, 'quota_fraction': '1', 'take_higher': False,
+                                  'accept_equal': False, 'list_precedence': False},
+            'openlist_quota_precedence': {'jump_fraction': None, 'quota': 'droop', 'quota_fraction': '1/2', 'take_higher': False,
+                                          'accept_equal': True, 'list_precedence': True}}
 CONDORCET_MODELLED = ('rankedpairs_winvotes', 'rankedpairs_margins', 'rankedpairs_pwo', 'copeland_2o', 'copeland_raw', 'schulze',
                       'kemeny_young', 'minimax_winvotes', 'minimax_margins', 'minimax_pwo')
 _FAMS = None
@@ -33,10 +56,47 @@ DECLARED = ('VotingSystemError', 'NotImplementedError')
 # distributors documented as not awarding the full number of seats (QuotaDistributor docstring): sum <= n only
 
 
+class _WithList:
+    """adapter: an open-list evaluator called as evaluate(votes, n_seats, candidate_list) with the party list = all candidates of
+    the votes in DESCENDING id order (so that list order and vote order differ)"""
+    def __init__(self, evaluator):
+        self.evaluator = evaluator
+
+    def evaluate(self, votes, n_seats):
+        clist = sorted(votes.keys(), key=lambda c: -NAMES.i(c))
+        return self.evaluator.evaluate(votes, n_seats, clist)
+
+
+def local_families():
+    """public classes of votelib.evaluate.* that the shared family table (harness/families.py) does not reach"""
+    import votelib.evaluate.core as vc
+    import votelib.evaluate.openlist as vo
+    import votelib.evaluate.auxiliary as vx
+    import votelib.evaluate.threshold as vt
+    F = fam_mod.Family
+    return [
+        F('openlist_jump_5pc', 'simple', lambda: _WithList(vo.ThresholdOpenList(jump_fraction=Fraction(5, 100)))),
+        F('openlist_quota_precedence', 'simple',
+          lambda: _WithList(vo.ThresholdOpenList(quota_function='droop', quota_fraction=Fraction(1, 2), accept_equal=True,
+                                                 list_precedence=True))),
+        F('openlist_tiebreaker_plurality', 'simple', lambda: _WithList(vo.ListOrderTieBreaker(vc.Plurality()))),
+        F('aux_input_order', 'simple', lambda: vx.InputOrderSelector()),
+        F('aux_sortitor', 'simple', lambda: vx.Sortitor(seed=1)),
+        F('aux_random_ballot', 'simple', lambda: vx.RandomUnrankedBallotSelector(seed=1), small_weights=True),
+        F('aux_rfc3797', 'simple', lambda: vx.RFC3797Selector([1, 2, [3, 4]])),
+        F('aux_candidate_number', 'simple', lambda: vx.CandidateNumberRanker()),
+        F('threshold_alternative', 'simple',
+          lambda: vt.AlternativeThresholds([vt.AbsoluteThreshold(2), vt.RelativeThreshold(Fraction(1, 5))]), kind='seatless',
+          n_seats=False),
+    ]
+
+
 def fams():
     global _FAMS
     if _FAMS is None:
         _FAMS = {f.name: f for f in fam_mod.families()}
+        for f in local_families():
+            _FAMS[f.name] = f
     return _FAMS
 
 
@@ -71,13 +131,31 @@ def covered_classes():
     return sorted(seen)
 
 
+# families with a Lean theorem that is only part of the schema: the missing statement (they stay listed as unproved)
+PARTIAL_FAMILIES = {
+    **{f'condorcet_rankedpairs_{k}': 'rankedpairs_shape (exactly n places for n >= 3) is FALSE of the code: rankedpairs_short_witness, open '
+       'finding; proved: rankedpairs_shape_partial (everything but the length, never shorter than 2), rankedpairs_shape_le_two, rankedpairs_refusals'
+       for k in ('winvotes', 'margins', 'pwo')},
+    'benham': 'benham_refusals is FALSE of the code (IndexError: benham_refusals_witness, open findings C05-benham-*); proved for one seat: '
+              'benham_shape, benham_refusals_partial; n_seats >= 2 is not modelled',
+    'tideman_alternative': 'tideman_refusals is FALSE of the code (IndexError/KeyError: tideman_refusals_witness, open findings C05-tideman-*); '
+                           'proved for one seat: tideman_shape, tideman_refusals_partial; n_seats >= 2 is not modelled',
+    'bucklin': 'bucklin_shape is FALSE of the code (empty answer: bucklin_short_witness, open finding C08-preference-addition-short-list); '
+               'proved for one seat (C17 model): bucklin_shape_partial, bucklin_refusals, bucklin_answers; n_seats >= 2 is not modelled',
+}
 UNPROVED = []
 UNMODELLED = []
-try:
-    UNPROVED = ['shape_' + n for n in fams() if n not in PROVED_FAMILIES]
-    UNMODELLED = [c for c in public_classes() if c not in covered_classes()]
-except Exception:
-    pass
+
+
+def _bookkeeping():
+    global UNPROVED, UNMODELLED
+    try:
+        UNPROVED = [PARTIAL_FAMILIES[n] for n in fams() if n in PARTIAL_FAMILIES] + \
+                   ['shape_' + n for n in fams() if n not in PROVED_FAMILIES and n not in PARTIAL_FAMILIES]
+        UNMODELLED = [c for c in public_classes() if c not in covered_classes()]
+    except Exception:
+        pass
+_bookkeeping()
 REQUIRED_COUNTERS = ['sel', 'dist', 'seatless', 'tie_in_result', 'modelled', 'refusal', 'few_votes', 'all_equal']
 RULE = ('every evaluator family built from the public selector/distributor classes of votelib.evaluate.* with its admissible vote type '
         '(simple, approval, ranked incl. shared ranks, score, pairwise through the real converter) x generated profiles with positive '
@@ -213,6 +291,28 @@ def model_line(case):
         return {'op': 'positional_plurality', 'scorer': POSITIONAL[f], 'votes': case['prof'], 'n': case['n']}
     if f in ('approval_av', 'approval_sav'):
         return {'op': 'approval_plurality', 'split': f == 'approval_sav', 'votes': case['prof'], 'n': case['n']}
+    if f in STV:
+        quota, form = STV[f]
+        votes = [[[[NAMES.i(x) for x in frozenset(NAMES.n(i) for i in it)] if isinstance(it, list) else it for it in b], w]
+                 for b, w in case['prof']]       # shared ranks in the iteration order of the frozenset the implementation sees
+        return {'op': 'stv_eval', 'form': form, 'method': 'gregory', 'quota': quota, 'accept_equal': True, 'mandatory': False,
+                'step': -1, 'n': case['n'], 'prev': [], 'max': [], 'draws': [], 'votes': votes}
+    if f in THRESHOLDS:
+        op, t, eq = THRESHOLDS[f]
+        return {'op': op, 'votes': case['prof'], 'threshold': t, 'accept_equal': eq}
+    if f in ('condorcet_winner', 'smith_set', 'schwartz_set'):
+        import votelib.convert as cv
+        pw = cv.RankedToCondorcetVotes().convert(fam_mod.build('ranked', case['prof'], NAMES))
+        return {'op': {'condorcet_winner': 'cw', 'smith_set': 'smith', 'schwartz_set': 'schwartz'}[f],
+                'votes': [[NAMES.i(a), NAMES.i(b), num_str(w)] for (a, b), w in pw.items()]}
+    if f in ('benham', 'tideman_alternative') and case['n'] == 1:
+        return {'op': 'benham' if f == 'benham' else 'tideman', 'profile': case['prof'], 'smith': True}
+    if f.startswith('openlist_'):
+        clist = sorted(fam_mod.candidates_of('simple', case['prof']), reverse=True)
+        if f == 'openlist_tiebreaker_plurality':
+            return {'op': 'tiebreak', 'votes': case['prof'], 'n': case['n'], 'list': clist, 'inner': 'plurality'}
+        cfg = OPENLIST[f]
+        return dict(cfg, op='openlist', votes=case['prof'], n=case['n'], list=clist)
     if f.startswith('quota_selector_'):
         return {'op': 'quota_selector', 'n': case['n'], 'votes': case['prof'], 'quota': f[len('quota_selector_'):],
                 'accept_equal': True, 'on_more': 'select'}
@@ -239,7 +339,10 @@ def compare(case, iobs, mobs):
     if case['family'].startswith('condorcet_'):
         import props.C05 as P05
         return P05.compare({'op': 'eval', 'name': case['family'][len('condorcet_'):]}, iobs, mobs)
-    if case['family'].startswith(('ha_', 'lr_', 'qd_')):
+    if case['family'] in ('condorcet_winner', 'smith_set', 'schwartz_set'):
+        # the order inside the set follows the Copeland ordering, ties in dict order: compare as the code returns it
+        a, b = canon(iobs), canon(mobs)
+    elif case['family'].startswith(('ha_', 'lr_', 'qd_')) or case['family'] == 'stv_dist_gregory_droop':
         a, b = canon(iobs), canon_dist(mobs)
     else:
         a, b = canon(iobs), canon(mobs)
